@@ -1369,3 +1369,37 @@ package state
 //@ ensures[ok-policy-stored] ok && req.Policy != nil ==> T_feature_gate_policy() != nil && T_feature_gate_policy().ModifyIndex == idx && T_feature_gate_policy().CreateIndex == ite(old(T_feature_gate_policy()) == nil, idx, old(T_feature_gate_policy().CreateIndex))
 //@ ensures[ok-without-policy-keeps-policy] ok && req.Policy == nil ==> T_feature_gate_policy() == old(T_feature_gate_policy()) && T_feature_gate_policy() != nil
 //@ ensures[err-not-ok] err != nil ==> !ok
+
+//@ file catalog.go
+// ---- C02: the snapshot accessors of the two virtual-IP tables hand the persister an iterator over EVERY stored row
+// (for the free list that includes the allocator's counter record, which is what keeps later assignments unique).
+//@ func Snapshot.ServiceVirtualIPs
+//@ props C02
+//@ results it, err
+//@ requires s != nil
+//@ ensures[every-row-iterated] err == nil ==> forall k string :: T_service_virtual_ips(k) != nil ==> exists j int :: 0 <= j && j < itLen(it) && itElem(it, j) == T_service_virtual_ips(k)
+//@ ensures[only-stored-rows] err == nil ==> itPos(it) == 0 && 0 <= itLen(it) && forall j int :: 0 <= j && j < itLen(it) ==> itElem(it, j) != nil
+//@ ensures[existing-iterators-untouched] forall x any, j int :: !fresh(x) ==> itLen(x) == old(itLen(x)) && itPos(x) == old(itPos(x)) && itElem(x, j) == old(itElem(x, j))
+//@ modifies nothing
+//@ func Snapshot.FreeVirtualIPs
+//@ props C02
+//@ results it, err
+//@ requires s != nil
+//@ ensures[every-row-iterated-including-the-counter] err == nil ==> forall k string :: T_free_virtual_ips(k) != nil ==> exists j int :: 0 <= j && j < itLen(it) && itElem(it, j) == T_free_virtual_ips(k)
+//@ ensures[only-stored-rows] err == nil ==> itPos(it) == 0 && 0 <= itLen(it) && forall j int :: 0 <= j && j < itLen(it) ==> itElem(it, j) != nil
+//@ ensures[existing-iterators-untouched] forall x any, j int :: !fresh(x) ==> itLen(x) == old(itLen(x)) && itPos(x) == old(itPos(x)) && itElem(x, j) == old(itElem(x, j))
+//@ modifies nothing
+//@ func Restore.FreeVirtualIP
+//@ props C02
+//@ results err
+//@ requires s != nil
+//@ ensures[stored-verbatim] err == nil ==> T_free_virtual_ips(req) != nil && eq(T_free_virtual_ips(req).(FreeVirtualIP).IP, req.IP) && T_free_virtual_ips(req).(FreeVirtualIP).IsCounter == req.IsCounter
+//@ ensures[other-slot-untouched] T_free_virtual_ips(FreeVirtualIP{IsCounter: !req.IsCounter}) == old(T_free_virtual_ips(FreeVirtualIP{IsCounter: !req.IsCounter}))
+//@ modifies T.free-virtual-ips
+//@ func Restore.ServiceVirtualIP
+//@ props C02
+//@ results err
+//@ requires s != nil
+//@ ensures[stored-verbatim] err == nil ==> T_service_virtual_ips(req.Service) != nil && eq(T_service_virtual_ips(req.Service).(ServiceVirtualIP).IP, req.IP) && T_service_virtual_ips(req.Service).(ServiceVirtualIP).ModifyIndex == req.ModifyIndex && T_service_virtual_ips(req.Service).(ServiceVirtualIP).CreateIndex == req.CreateIndex && T_service_virtual_ips(req.Service).(ServiceVirtualIP).Service == req.Service
+//@ ensures[other-rows-untouched] forall k string :: T_service_virtual_ips(k) == old(T_service_virtual_ips(k)) || T_service_virtual_ips(k) == T_service_virtual_ips(req.Service)
+//@ modifies T.service-virtual-ips, T.index
